@@ -94,9 +94,16 @@ func resourceLists(defs []vs.ResourceDef) []*metav1.APIResourceList {
 			by[gv] = l
 			order = append(order, gv)
 		}
-		l.APIResources = append(l.APIResources, metav1.APIResource{Name: d.Resource, Kind: d.Kind, Namespaced: d.Namespaced, Group: d.Group, Version: d.Version})
-		if d.HasStatus {
-			l.APIResources = append(l.APIResources, metav1.APIResource{Name: d.Resource + "/status", Kind: d.Kind, Namespaced: d.Namespaced, Group: d.Group, Version: d.Version})
+		// a discovery document lists a subresource before or after its main resource (aggregated API servers do either):
+		// resources with a name of even length get theirs listed first
+		main := metav1.APIResource{Name: d.Resource, Kind: d.Kind, Namespaced: d.Namespaced, Group: d.Group, Version: d.Version}
+		status := metav1.APIResource{Name: d.Resource + "/status", Kind: d.Kind, Namespaced: d.Namespaced, Group: d.Group, Version: d.Version}
+		if d.HasStatus && len(d.Resource)%2 == 0 {
+			l.APIResources = append(l.APIResources, status)
+		}
+		l.APIResources = append(l.APIResources, main)
+		if d.HasStatus && len(d.Resource)%2 != 0 {
+			l.APIResources = append(l.APIResources, status)
 		}
 	}
 	var out []*metav1.APIResourceList
